@@ -80,6 +80,10 @@ func (n *c02Node) Post(ctx context.Context, s *SharedStore, p, e any) (Action, e
 	return "done", nil
 }
 
+type c02Override struct{ *c02Node }
+
+func (n *c02Override) GetMaxRetries() int { return n.budget }
+
 func VH_C02_struct() {
 	maxN := vParam("N", 4)
 	N := vNondet[int]("N")
@@ -93,7 +97,15 @@ func VH_C02_struct() {
 	if vNondet[bool]("cancelInsideTheLastAttempt") {
 		n.cancelInLast = ctx
 	}
-	_, err := Run(ctx, n, NewSharedStore())
+	var node Node = n
+	if vNondet[bool]("budgetFromAnOverriddenGetter") {
+		// the budget is what the node's GetMaxRetries reports: a node type that embeds the base
+		// node (left at its default) and overrides the getter - the README's CustomRetryNode - gets N
+		vCover("budget-from-an-overridden-getter")
+		n.BaseNode = NewBaseNode()
+		node = &c02Override{c02Node: n}
+	}
+	_, err := Run(ctx, node, NewSharedStore())
 	vLog("calls", n.calls)
 	vLog("fb", n.fb)
 	if n.okAt > 0 {
